@@ -1001,6 +1001,24 @@ def _iv_len(a, pre):
     return r
 
 
+@op("rel")
+def _rel(a, pre):
+    """relations derived from elapsed time: closest / farthest / average / is_same_day / is_anniversary"""
+    m = a["m"]
+    x = pre[0]
+    if m == "closest":
+        return x.closest(pre[1], pre[2])
+    if m == "farthest":
+        return x.farthest(pre[1], pre[2])
+    if m == "average":
+        return x.average(pre[1])
+    if m == "is_same_day":
+        return {"k": "bool", "v": bool(x.is_same_day(pre[1]))}
+    if m == "is_anniversary":
+        return {"k": "bool", "v": bool(x.is_anniversary(pre[1])), "v2": bool(x.is_birthday(pre[1]))}
+    raise ValueError(m)
+
+
 @op("iv_comp")
 def _iv_comp(a, pre):
     p = P()
